@@ -277,16 +277,21 @@ fn parse_debug_buf(dbg: &str) -> (String, usize, Option<Vec<u8>>) {
 
 fn reb_case(cases: &mut Cases, vals: &[DVal], note: &str) { reb_case_class(cases, vals, "", note) }
 
-fn reb_case_class(cases: &mut Cases, vals: &[DVal], class_prefix: &str, note: &str) {
-    let run = catch_unwind(AssertUnwindSafe(|| {
+/// Push `vals` into a fresh REAL ColumnBuffer the way the compaction loop does.  Returns the canonical cells, the raw
+/// (kind, length, bitmap) text and — for the class name — the (length, stored bitmap byte length) of the buffer BEFORE
+/// each push (read from the buffer's `Debug` rendering).
+fn run_pushes(vals: &[DVal]) -> Option<(String, String, Vec<(usize, Option<usize>)>)> {
+    catch_unwind(AssertUnwindSafe(|| {
         let mut b = ColumnBuffer::default();
         let mut data: Vec<Cell> = vec![]; // every value pushed, in order (padding for NULL rows as the code pushes it)
-        let mut kind0 = "";
+        let mut before: Vec<(usize, Option<usize>)> = vec![];
         for v in vals {
+            let (_, len0, p0) = parse_debug_buf(&format!("{:?}", b));
+            before.push((len0, p0.map(|p| p.len())));
             match v {
-                DVal::I(d, p) => { if kind0.is_empty() { kind0 = "i"; } b.push_ints(d.iter().cloned(), p.as_deref()); data.extend(d.iter().map(|x| Cell::Int(*x))); }
-                DVal::F(d, p) => { if kind0.is_empty() { kind0 = "f"; } b.push_floats(d.iter().map(|x| ordered_float::OrderedFloat(f64::from_bits(*x))), p.as_deref()); data.extend(d.iter().map(|x| Cell::Float(*x))); }
-                DVal::S(d, p) => { if kind0.is_empty() { kind0 = "s"; } b.push_strings(d.iter().map(|x| x.as_str()), p.as_deref()); data.extend(d.iter().map(|x| Cell::Str(x.clone()))); }
+                DVal::I(d, p) => { b.push_ints(d.iter().cloned(), p.as_deref()); data.extend(d.iter().map(|x| Cell::Int(*x))); }
+                DVal::F(d, p) => { b.push_floats(d.iter().map(|x| ordered_float::OrderedFloat(f64::from_bits(*x))), p.as_deref()); data.extend(d.iter().map(|x| Cell::Float(*x))); }
+                DVal::S(d, p) => { b.push_strings(d.iter().map(|x| x.as_str()), p.as_deref()); data.extend(d.iter().map(|x| Cell::Str(x.clone()))); }
                 DVal::Null(n) => { b.push_nulls(*n); data.extend(std::iter::repeat(Cell::Null).take(*n)); }
             }
         }
@@ -297,10 +302,17 @@ fn reb_case_class(cases: &mut Cases, vals: &[DVal], class_prefix: &str, note: &s
             let set = match &present { None => true, Some(p) => BitVec::is_set(&p[..], i) };
             if !set { Cell::Null } else { match data.get(i) { Some(Cell::Null) | None => match kind.as_str() { "Int" => Cell::Int(0), "Float" => Cell::Float(0), _ => Cell::Str(String::new()) }, Some(c) => c.clone() } }
         }).collect();
-        (format!("{} {}", len, cells_tok(&cells)), format!("{} {} {}", kind, len, present.map(|p| hexb(&p)).unwrap_or("-".into())))
-    }));
-    let (cells_out, raw_out) = run.unwrap_or(("panic".into(), "panic".into()));
-    let kinds: Vec<&str> = vals.iter().map(|v| match v { DVal::I(_, None) => "I", DVal::I(_, Some(_)) => "NI", DVal::F(_, None) => "F", DVal::F(_, Some(_)) => "NF", DVal::S(_, None) => "S", DVal::S(_, Some(_)) => "NS", DVal::Null(_) => "0" }).collect();
+        (format!("{} {}", len, cells_tok(&cells)), format!("{} {} {}", kind, len, present.map(|p| hexb(&p)).unwrap_or("-".into())), before)
+    })).ok()
+}
+
+fn dval_kind(v: &DVal) -> &'static str {
+    match v { DVal::I(_, None) => "I", DVal::I(_, Some(_)) => "NI", DVal::F(_, None) => "F", DVal::F(_, Some(_)) => "NF", DVal::S(_, None) => "S", DVal::S(_, Some(_)) => "NS", DVal::Null(_) => "0" }
+}
+
+fn reb_case_class(cases: &mut Cases, vals: &[DVal], class_prefix: &str, note: &str) {
+    let (cells_out, raw_out) = match run_pushes(vals) { Some((c, r, _)) => (c, r), None => ("panic".into(), "panic".into()) };
+    let kinds: Vec<&str> = vals.iter().map(dval_kind).collect();
     let class = format!("{}reb:{}", if class_prefix.is_empty() { String::new() } else { format!("{}:", class_prefix) }, kinds.join("."));
     let line = format!("{} {}", vals.len(), vals.iter().map(dval_tok).collect::<Vec<_>>().join(" "));
     cases.push(&class, &format!("reb {}", line), &cells_out, note);
@@ -335,19 +347,181 @@ fn reb_stream(cases: &mut Cases, rng: &mut Rng, thorough: bool) {
 }
 
 // ------------------------------------------------------------------------------------------------
+// rebuild stream, bounded-exhaustive part (`rebx:` classes).  What decides where `push_present` puts a bit is
+//   (accumulated length mod 8) x (how many bytes the stored bitmap is SHORTER than ceil(length / 8): bitmaps are grown on
+//   demand by `BitVecMut::set`, so a buffer ending in NULLs that cover whole bytes has fewer bytes than rows / 8; the
+//   same after `push_nulls`, and `init_present` of an `Empty` buffer allocates length / 8) x (what the next image is:
+//   dense -> `set` every bit, nullable -> copy its map, all-NULL -> nothing) x (the byte length of the supplied map).
+// Images are enumerated by shape: length x {dense, all-NULL image, nullable with a null pattern}; values are small
+// non-zero numbers / one-letter strings (the placeholder under a NULL is 0 / 0.0 / "" as in a decoded column).
+
+#[derive(Clone)]
+struct Shape { len: usize, kind: u8 /* 0 dense, 1 all-NULL image (push_nulls), 2 nullable */, mask: Vec<bool> /* true = NULL */, pname: String }
+
+const REBX_LENS: &[usize] = &[0, 1, 7, 8, 9, 15, 16, 17, 24, 63, 64, 65];
+
+/// null patterns of an image of `n` rows (deduplicated by mask).  level 0: everything; 1: reduced; 2: tiny.
+fn mask_patterns(n: usize, level: u8) -> Vec<(String, Vec<bool>)> {
+    let mut out: Vec<(String, Vec<bool>)> = vec![];
+    let mut seen = std::collections::HashSet::new();
+    let mut add = |name: String, m: Vec<bool>| { if seen.insert(m.clone()) { out.push((name, m)); } };
+    // trailing NULL runs of every length 0..17: the stored bitmap ends 0, 1 or 2 bytes early
+    let trail: Vec<usize> = match level { 0 => (0..=17).collect(), 1 => vec![0, 1, 7, 8, 9, 16, 17], _ => vec![0, 1, 8] };
+    for r in trail { if r <= n { add(format!("trail{}", r), (0..n).map(|i| i >= n - r).collect()); } }
+    add("allnull".into(), vec![true; n]);
+    // leading NULL runs
+    let lead: &[usize] = match level { 0 => &[1, 7, 8, 9, 15, 16, 17], 1 => &[1, 8, 9], _ => &[8] };
+    for &r in lead { if r < n { add(format!("lead{}", r), (0..n).map(|i| i < r).collect()); } }
+    // a single NULL / a single present row at every byte boundary +-1 and at the end
+    let mut pos: Vec<usize> = match level { 0 => vec![0, 1, 6, 7, 8, 9, 14, 15, 16, 17, 22, 23, 24, 25, 55, 56, 57, 62, 63, 64], 1 => vec![0, 7, 8, 9], _ => vec![0] };
+    if n >= 1 { pos.push(n - 1); }
+    if n >= 2 && level == 0 { pos.push(n - 2); }
+    for &p in &pos { if p < n { add(format!("null1@{}", p), (0..n).map(|i| i == p).collect()); } }
+    if level < 2 { for &p in &pos { if p < n { add(format!("only@{}", p), (0..n).map(|i| i != p).collect()); } } }
+    // alternating, and a whole byte of NULLs in the middle
+    if n >= 2 && level < 2 { add("alt0".into(), (0..n).map(|i| i % 2 == 0).collect()); add("alt1".into(), (0..n).map(|i| i % 2 == 1).collect()); }
+    if n >= 17 && level < 2 { add("hole8".into(), (0..n).map(|i| (8..16).contains(&i)).collect()); }
+    out
+}
+
+fn shapes_for(n: usize, level: u8) -> Vec<Shape> {
+    let mut v = vec![Shape { len: n, kind: 0, mask: vec![false; n], pname: "dense".into() }, Shape { len: n, kind: 1, mask: vec![true; n], pname: "absent".into() }];
+    for (name, m) in mask_patterns(n, level) { v.push(Shape { len: n, kind: 2, mask: m, pname: name }); }
+    v
+}
+
+/// the shape named `pname` at length `n` (a pattern that coincides with an earlier one at this length — `null1@0` = `lead1`,
+/// `allnull` of 8 rows = `trail8` — is returned under the earlier name)
+fn find_shape(n: usize, pname: &str) -> Shape {
+    if pname == "dense" || pname == "absent" { return shapes_for(n, 0).into_iter().find(|s| s.pname == pname).unwrap(); }
+    let num = |pre: &str| -> Option<usize> { pname.strip_prefix(pre).and_then(|r| r.parse().ok()) };
+    let want: Vec<bool> =
+        if let Some(r) = num("trail") { (0..n).map(|i| i + r >= n).collect() }
+        else if let Some(r) = num("lead") { (0..n).map(|i| i < r).collect() }
+        else if let Some(p) = num("null1@") { (0..n).map(|i| i == p).collect() }
+        else if let Some(p) = num("only@") { (0..n).map(|i| i != p).collect() }
+        else if pname == "allnull" { vec![true; n] }
+        else if pname == "alt0" { (0..n).map(|i| i % 2 == 0).collect() }
+        else if pname == "alt1" { (0..n).map(|i| i % 2 == 1).collect() }
+        else if pname == "hole8" { (0..n).map(|i| (8..16).contains(&i)).collect() }
+        else { panic!("no pattern {}", pname) };
+    let name = mask_patterns(n, 0).into_iter().find(|(_, x)| *x == want).map(|(a, _)| a).unwrap_or_else(|| pname.to_string());
+    Shape { len: n, kind: 2, mask: want, pname: name }
+}
+
+/// the decoded value of an image shape.  `variant` = byte length of the null map as `NullableVec::present` may carry it:
+/// 0 grown on demand from an empty vector (what a builder that started empty stores), 1 `vec![0; n / 8]` then grown
+/// (`init_present`), 2 zero-padded to ceil(n / 8), 3 one byte more.
+fn shape_dval(s: &Shape, ty: u8, variant: u8, salt: usize) -> DVal {
+    if s.kind == 1 { return DVal::Null(s.len); }
+    let n = s.len;
+    let present = if s.kind == 0 { None } else {
+        let mut p: Vec<u8> = match variant % 4 { 0 => vec![], 1 => vec![0; n / 8], 2 => vec![0; n.div_ceil(8)], _ => vec![0; n.div_ceil(8) + 1] };
+        for (i, m) in s.mask.iter().enumerate() { if !*m { BitVecMut::set(&mut p, i); } }
+        Some(p)
+    };
+    let v = |i: usize| 1 + (i * 7 + salt) % 9;
+    let null = |i: usize| s.kind == 2 && s.mask[i];
+    match ty % 3 {
+        0 => DVal::I((0..n).map(|i| if null(i) { 0 } else { v(i) as i64 }).collect(), present),
+        1 => DVal::F((0..n).map(|i| if null(i) { 0f64.to_bits() } else { (v(i) as f64 * 0.5).to_bits() }).collect(), present),
+        _ => DVal::S((0..n).map(|i| if null(i) { String::new() } else { ((b'a' + v(i) as u8) as char).to_string() }).collect(), present),
+    }
+}
+
+fn rebx_case(cases: &mut Cases, shapes: &[&Shape], ty: u8, variant: u8, sub: &str) {
+    let vals: Vec<DVal> = shapes.iter().enumerate().map(|(k, s)| shape_dval(s, ty, variant.wrapping_add(k as u8), 3 * k)).collect();
+    let (cells_out, raw_out, before) = run_pushes(&vals).unwrap_or(("panic".into(), "panic".into(), vec![]));
+    // state of the buffer at every image boundary: aligned?, bytes the stored bitmap is short of ceil(len / 8) (nb: no bitmap yet)
+    let bounds: Vec<String> = before.iter().skip(1).map(|(l, bm)| {
+        if *l == 0 { return "e".to_string(); }
+        format!("{}{}", if l % 8 == 0 { "al" } else { "un" }, match bm { None => "nb".to_string(), Some(b) => format!("{:+}", l.div_ceil(8) as i64 - *b as i64) })
+    }).collect();
+    let kinds: Vec<&str> = shapes.iter().map(|s| match s.kind { 0 => "D", 1 => "0", _ => "N" }).collect();
+    let class = format!("rebx:{}:{}:{}:{}", sub, ["i", "f", "s"][(ty % 3) as usize], kinds.join("."), if bounds.is_empty() { "panic".to_string() } else { bounds.join("/") });
+    let note = format!("p={} var={}", shapes.iter().map(|s| format!("{}@{}", s.pname, s.len)).collect::<Vec<_>>().join("|"), variant % 4);
+    let line = format!("{} {}", vals.len(), vals.iter().map(dval_tok).collect::<Vec<_>>().join(" "));
+    cases.push(&class, &format!("reb {}", line), &cells_out, &note);
+    cases.push(&format!("{}:raw", class), &format!("rebraw {}", line), &raw_out, "");
+}
+
+fn mix(i: usize) -> usize { ((i as u64).wrapping_mul(0x9E37_79B9_7F4A_7C15) >> 33) as usize }
+
+fn rebx_stream(cases: &mut Cases, thorough: bool, seed: u64) {
+    // ---- covering sample (both tiers; deterministic)
+    // (a) first image: every length x every trailing NULL run 0..17; next image by a latin square over 12 configurations, so that
+    //     every (length, next) and every (run, next) pair occurs
+    let next: Vec<Shape> = vec![
+        find_shape(8, "dense"), find_shape(8, "null1@0"), find_shape(9, "trail1"), find_shape(8, "allnull"), find_shape(16, "trail0"), find_shape(8, "absent"),
+        find_shape(17, "only@7"), find_shape(1, "dense"), find_shape(7, "alt0"), find_shape(9, "absent"), find_shape(24, "lead8"), find_shape(16, "trail8"),
+    ];
+    let k = next.len();
+    for (i, &n) in REBX_LENS.iter().enumerate() {
+        for r in 0..=17usize.min(n) {
+            let first = find_shape(n, &format!("trail{}", r));
+            for (j, c) in [(i + r) % k, (i + r + 5) % k].into_iter().enumerate() {
+                rebx_case(cases, &[&first, &next[c]], (i + 2 * r + j) as u8, (i + r + j) as u8, "trail");
+            }
+        }
+    }
+    // (b) first image: the other patterns (dense, all-NULL image, leading runs, single NULL / single value at the byte boundaries, alternating)
+    for (i, &n) in REBX_LENS.iter().enumerate() {
+        for (q, first) in shapes_for(n, 1).iter().enumerate() {
+            if first.pname.starts_with("trail") { continue; }
+            let c = (i * 5 + q) % k;
+            rebx_case(cases, &[first, &next[c]], (i + q) as u8, (i + 3 * q) as u8, "other");
+        }
+    }
+    // (c) three images: the middle one leaves whole bytes of NULLs behind (all-NULL image = `push_nulls`, nullable all NULL, trailing run)
+    let a: Vec<Shape> = vec![find_shape(8, "dense"), find_shape(16, "trail8"), find_shape(7, "trail0"), find_shape(8, "absent"), find_shape(16, "null1@8")];
+    let b: Vec<Shape> = vec![find_shape(8, "absent"), find_shape(9, "absent"), find_shape(8, "allnull"), find_shape(16, "trail8"), find_shape(16, "allnull"), find_shape(1, "dense"), find_shape(0, "absent"), find_shape(0, "allnull")];
+    let c: Vec<Shape> = vec![find_shape(8, "null1@0"), find_shape(8, "dense"), find_shape(9, "trail0"), find_shape(8, "allnull"), find_shape(8, "absent")];
+    let mut idx = 0usize;
+    for x in &a { for y in &b { for z in &c { rebx_case(cases, &[x, y, z], (idx % 3) as u8, (idx / 3) as u8, "three"); idx += 1; } } }
+    if !thorough { return; }
+
+    // ---- thorough: the full product of two images (first: every shape of every length; second: every shape of the lengths up
+    // to 24, the reduced set for 63..65), and of three images over the tiny sets.  The three seeds of a thorough check each
+    // take a third (slice = seed / 1000 mod 3); value type and map-length variant rotate with a hash of the index.
+    let slice = ((seed / 1000) % 3) as usize;
+    let first: Vec<Shape> = REBX_LENS.iter().flat_map(|&n| shapes_for(n, 0)).collect();
+    let second: Vec<Shape> = REBX_LENS.iter().flat_map(|&n| shapes_for(n, if n <= 24 { 0 } else { 1 })).collect();
+    let mut idx = 0usize;
+    let mut taken = 0usize;
+    for x in &first { for y in &second {
+        if idx % 3 == slice { let h = mix(idx); rebx_case(cases, &[x, y], (h % 3) as u8, ((h / 3) % 4) as u8, "pair"); taken += 1; }
+        idx += 1;
+    } }
+    eprintln!("rebx: {} first shapes x {} second shapes = {} pairs, slice {} -> {} cases", first.len(), second.len(), idx, slice, taken);
+    let t1: Vec<Shape> = [7usize, 8, 9, 16].iter().flat_map(|&n| shapes_for(n, 2)).collect();
+    let t2: Vec<Shape> = [0usize, 1, 8, 9, 16].iter().flat_map(|&n| shapes_for(n, 2)).collect();
+    let t3: Vec<Shape> = [1usize, 8, 9].iter().flat_map(|&n| shapes_for(n, 2)).collect();
+    let mut idx = 0usize;
+    for x in &t1 { for y in &t2 { for z in &t3 {
+        if idx % 3 == slice { let h = mix(idx); rebx_case(cases, &[x, y, z], (h % 3) as u8, ((h / 3) % 4) as u8, "triple"); }
+        idx += 1;
+    } } }
+    eprintln!("rebx: {} x {} x {} = {} triples", t1.len(), t2.len(), t3.len(), idx);
+}
+
+// ------------------------------------------------------------------------------------------------
 // history stream
 
 use std::sync::Mutex;
 static OBS: Mutex<Vec<String>> = Mutex::new(Vec::new());
 
 #[derive(Clone, Copy, PartialEq, Debug)]
-enum ColKind { Id, U8, U8N, Off, OffN, Big, BigN, MonoN, Flt, FltN, SLow, SLowN, SHigh, SHighN, Hex, HexN, AllNull, Late, Sparse, Const, ConstN, LeadNull }
+enum ColKind { Id, U8, U8N, Off, OffN, Big, BigN, MonoN, Flt, FltN, SLow, SLowN, SHigh, SHighN, Hex, HexN, AllNull, Late, Sparse, Const, ConstN, LeadNull,
+    /// `tail` profile (batch sizes that are multiples of 8): the column's rows END in a run of NULLs that covers whole bytes of the
+    /// null map and START with a value (second row NULL, so the column is nullable in every partition)
+    Ti8, Ti9, Ti16, Tf8, Ts8, Tsh8, TiAlt, TiAll }
 
 impl ColKind {
     fn name(&self) -> &'static str {
         match self { ColKind::Id => "id", ColKind::U8 => "u8", ColKind::U8N => "u8n", ColKind::Off => "off", ColKind::OffN => "offn", ColKind::Big => "big", ColKind::BigN => "bign",
             ColKind::MonoN => "monon", ColKind::Flt => "flt", ColKind::FltN => "fltn", ColKind::SLow => "slow", ColKind::SLowN => "slown", ColKind::SHigh => "shigh", ColKind::SHighN => "shighn",
-            ColKind::Hex => "hex", ColKind::HexN => "hexn", ColKind::AllNull => "allnull", ColKind::Late => "late", ColKind::Sparse => "sparse", ColKind::Const => "const", ColKind::ConstN => "constn", ColKind::LeadNull => "leadnull" }
+            ColKind::Hex => "hex", ColKind::HexN => "hexn", ColKind::AllNull => "allnull", ColKind::Late => "late", ColKind::Sparse => "sparse", ColKind::Const => "const", ColKind::ConstN => "constn", ColKind::LeadNull => "leadnull",
+            ColKind::Ti8 => "ti8", ColKind::Ti9 => "ti9", ColKind::Ti16 => "ti16", ColKind::Tf8 => "tf8", ColKind::Ts8 => "ts8", ColKind::Tsh8 => "tsh8", ColKind::TiAlt => "tialt", ColKind::TiAll => "tiall" }
     }
     /// cells of rows [r0, r0+n) of batch number `b`; `None` = the batch does not mention the column
     fn cells(&self, rng: &mut Rng, r0: usize, n: usize, b: usize) -> Option<Vec<Cell>> {
@@ -375,9 +549,29 @@ impl ColKind {
             ColKind::Const => vec![Cell::Int(7); n],
             ColKind::ConstN => { let v = vec![Cell::Int(300); n]; nullify(rng, v) }
             ColKind::LeadNull => if b == 0 { vec![Cell::Null; n] } else { let v = gen_ints(rng, n, "small").into_iter().map(Cell::Int).collect(); nullify(rng, v) },
+            ColKind::Ti8 => tail_cells(n, b, 8, |i| Cell::Int(1 + ((r0 + i) % 200) as i64)),
+            ColKind::Ti9 => tail_cells(n, b, 9, |i| Cell::Int(-1_000_000 - ((r0 + i) % 50_000) as i64)),
+            ColKind::Ti16 => tail_cells(n, b, 16, |i| Cell::Int(1000 + 3 * (r0 + i) as i64)),
+            ColKind::Tf8 => tail_cells(n, b, 8, |i| Cell::f(0.5 + (r0 + i) as f64)),
+            ColKind::Ts8 => tail_cells(n, b, 8, |i| Cell::Str(["b", "d", "zz"][(r0 + i) % 3].to_string())),
+            ColKind::Tsh8 => tail_cells(n, b, 8, |i| Cell::Str(format!("row-{}-{}", r0 + i, (r0 + i) * 7919 % 1000))),
+            // every other batch dense: a dense image is appended behind the short bitmap (`set` for every row)
+            ColKind::TiAlt => if b % 2 == 1 { (0..n).map(|i| Cell::Int(1 + ((r0 + i) % 200) as i64)).collect() } else { tail_cells(n, b, 8, |i| Cell::Int(1 + ((r0 + i) % 200) as i64)) },
+            // every other batch entirely NULL (`Column::null` -> `push_nulls`), nullable in between
+            ColKind::TiAll => tail_cells(n, b, n, |i| Cell::Int(7 + ((r0 + i) % 100) as i64)),
         })
     }
 }
+
+/// `n` rows: values (the second one NULL) followed by `r` NULLs.  When the run would swallow the whole batch (`r >= n`) the
+/// batches alternate instead: even batches all NULL, odd batches values with the second row NULL.
+fn tail_cells<F: Fn(usize) -> Cell>(n: usize, b: usize, r: usize, val: F) -> Vec<Cell> {
+    let r = if r >= n { if b % 2 == 0 { n } else { 0 } } else { r };
+    (0..n).map(|i| if i + r >= n || (i == 1 && n - r >= 2) { Cell::Null } else { val(i) }).collect()
+}
+
+/// columns of the `tail` ladders (not part of the random history profiles: their batch sizes are not multiples of 8)
+const TAIL_PROFILE: (&str, &[ColKind]) = ("tail", &[ColKind::Id, ColKind::Ti8, ColKind::Ti9, ColKind::Ti16, ColKind::Tf8, ColKind::Ts8, ColKind::Tsh8, ColKind::TiAlt, ColKind::TiAll, ColKind::U8N, ColKind::SLowN]);
 
 const PROFILES: &[(&str, &[ColKind])] = &[
     ("dense", &[ColKind::Id, ColKind::U8, ColKind::Off, ColKind::Big, ColKind::Flt, ColKind::SLow, ColKind::SHigh, ColKind::Const]),
@@ -388,26 +582,49 @@ const PROFILES: &[(&str, &[ColKind])] = &[
     ("all", &[ColKind::Id, ColKind::U8N, ColKind::Big, ColKind::MonoN, ColKind::FltN, ColKind::SLowN, ColKind::SHigh, ColKind::AllNull, ColKind::Late, ColKind::Sparse]),
 ];
 
-fn select_all(db: &Arc<LocustDB>, deadline: u64) -> String {
-    match query_full(db, "SELECT * FROM t", true, deadline) {
+fn select_all(db: &Arc<LocustDB>, table: &str, deadline: u64) -> String {
+    let sql = if table.chars().all(|c| c.is_ascii_lowercase()) { format!("SELECT * FROM {}", table) } else { format!("SELECT * FROM \"{}\"", table) };
+    match query_full(db, &sql, true, deadline) {
         QOut::Ok { colnames, rows: Some(rows), .. } => format!("cols:{} rows:{}", toks(&colnames, |c| c.clone()), rows_tok(&rows)),
         other => other.tok(),
     }
 }
 
-/// compaction inputs of table `t` recorded by the sync point since the last call:
+/// compaction inputs recorded by the sync point since the last call, per table (table names here contain no `:`):
 /// per column (sorted by name) the (section type ~ codec signature) of every merged partition, in merge order
-fn take_obs() -> (usize, String) {
+fn take_obs_all() -> std::collections::BTreeMap<String, (usize, String)> {
     let labels: Vec<String> = std::mem::take(&mut *OBS.lock().unwrap());
-    let mut per_col: std::collections::BTreeMap<String, Vec<String>> = Default::default();
+    let mut per_table: std::collections::BTreeMap<String, std::collections::BTreeMap<String, Vec<String>>> = Default::default();
     for l in labels {
         let parts: Vec<&str> = l.splitn(7, ':').collect(); // compact:input:<table>:<column>:<id>:<type>:<sig>
-        if parts.len() < 7 || parts[2] != "t" { continue; }
-        per_col.entry(parts[3].to_string()).or_default().push(format!("{}~{}", parts[5], parts[6].replace(' ', "")));
+        if parts.len() < 7 { continue; }
+        per_table.entry(parts[2].to_string()).or_default().entry(parts[3].to_string()).or_default().push(format!("{}~{}", parts[5], parts[6].replace(' ', "")));
     }
-    let k = per_col.values().map(|v| v.len()).max().unwrap_or(0);
-    let tok = per_col.iter().map(|(c, v)| format!("{}={}", c, v.join("/"))).collect::<Vec<_>>().join(";");
-    (k, tok)
+    per_table.into_iter().map(|(t, per_col)| {
+        let k = per_col.values().map(|v| v.len()).max().unwrap_or(0);
+        let tok = per_col.iter().map(|(c, v)| format!("{}={}", c, v.join("/"))).collect::<Vec<_>>().join(";");
+        (t, (k, tok))
+    }).collect()
+}
+
+/// Sibling tables: names that differ from each other only in what `sanitize_table_name` removes (letter case, a blank).  They
+/// must still be kept apart on disk; their content is compared after every flush / evict / restart of the database.
+const SIBS: &[&str] = &["Tw", "t w"];
+
+struct Sib { name: &'static str, hist: Vec<String>, obs_all: Vec<String>, rows: usize }
+
+impl Sib {
+    /// a small batch with values that identify the table: `id`, `v` (nullable int), `s` (string)
+    fn batch(&mut self, which: usize, nbatch: usize) -> Batch {
+        let m = [3usize, 8, 5][nbatch % 3];
+        let r0 = self.rows;
+        let id: Vec<Cell> = (r0..r0 + m).map(|i| Cell::Int(i as i64)).collect();
+        let v: Vec<Cell> = (r0..r0 + m).map(|i| if i % 4 == 1 { Cell::Null } else { Cell::Int(1000 * (which as i64 + 1) + i as i64) }).collect();
+        let sv: Vec<Cell> = (r0..r0 + m).map(|i| Cell::Str(format!("{}-{}", ["upper", "blank"][which % 2], i))).collect();
+        self.hist.push(format!("I{}@id={};s={};v={}", m, cells_tok(&id), cells_tok(&sv), cells_tok(&v)));
+        self.rows += m;
+        Batch { table: self.name.to_string(), len: m as u64, cols: vec![("id".into(), ColRep::from_cells(&id, 0)), ("s".into(), ColRep::from_cells(&sv, 0)), ("v".into(), ColRep::from_cells(&v, nbatch as u64))] }
+    }
 }
 
 /// one database under test: executes steps, records the history line and compares `SELECT *` after every step
@@ -421,6 +638,7 @@ struct Hist {
     nbatch: usize,
     class_prefix: String,
     dead: bool,
+    sibs: Vec<Sib>,
 }
 
 enum Step { Ingest(usize, Vec<(String, Vec<Cell>)>, u64), Flush, Evict { silent: bool }, Restart }
@@ -436,8 +654,14 @@ impl Hist {
         opts.partition_combine_factor = factor;
         opts.mem_lz4 = mem_lz4;
         let db = Arc::new(LocustDB::new(&opts));
-        let _ = take_obs();
-        Hist { db, opts, dir, hist: vec![], obs_all: vec![], rows: 0, nbatch: 0, class_prefix, dead: false }
+        let _ = take_obs_all();
+        Hist { db, opts, dir, hist: vec![], obs_all: vec![], rows: 0, nbatch: 0, class_prefix, dead: false, sibs: vec![] }
+    }
+
+    /// also feed and check the sibling tables (databases with a storage directory)
+    fn with_siblings(mut self) -> Hist {
+        self.sibs = SIBS.iter().map(|n| Sib { name: n, hist: vec![], obs_all: vec![], rows: 0 }).collect();
+        self
     }
 
     fn step(&mut self, cases: &mut Cases, step: Step, stepno: usize) {
@@ -451,28 +675,38 @@ impl Hist {
                 let mut p = Rng::new(pref);
                 let cols: Vec<(String, ColRep)> = cols.iter().map(|(name, cells)| (name.clone(), ColRep::from_cells(cells, p.next()))).collect();
                 self.hist.push(format!("I{}@{}", n, tok.join(";")));
+                let nbatch = self.nbatch;
                 self.rows += n; self.nbatch += 1;
-                let batch = Batch { table: "t".into(), len: n as u64, cols };
+                let mut batches = vec![Batch { table: "t".into(), len: n as u64, cols }];
+                for (w, sib) in self.sibs.iter_mut().enumerate() { batches.push(sib.batch(w, nbatch)); }
                 let db2 = self.db.clone();
-                ("ingest", match with_deadline(deadline, move || ingest(&db2, &[batch])) { None => Err("hang".into()), Some(Err(_)) => Err("panic".into()), Some(Ok(())) => Ok(()) })
+                ("ingest", match with_deadline(deadline, move || ingest(&db2, &batches)) { None => Err("hang".into()), Some(Err(_)) => Err("panic".into()), Some(Ok(())) => Ok(()) })
             }
             Step::Flush => {
                 let db2 = self.db.clone();
                 let r = match with_deadline(deadline, move || db2.force_flush()) { None => Err("hang".to_string()), Some(Err(_)) => Err("panic".to_string()), Some(Ok(())) => Ok(()) };
-                let (k, tok) = take_obs();
+                let mut obs = take_obs_all();
+                let (k, tok) = obs.remove("t").unwrap_or((0, String::new()));
                 merged = k;
                 if k > 0 { self.obs_all.push(tok); }
                 self.hist.push(format!("F{}", k));
+                for sib in self.sibs.iter_mut() {
+                    let (k, tok) = obs.remove(sib.name).unwrap_or((0, String::new()));
+                    if k > 0 { sib.obs_all.push(tok); }
+                    sib.hist.push(format!("F{}", k));
+                }
                 ("flush", r)
             }
             Step::Evict { silent } => {
                 silent_ok = silent;
                 self.hist.push("E".into());
+                for sib in self.sibs.iter_mut() { sib.hist.push("E".into()); }
                 let db2 = self.db.clone();
                 ("evict", match with_deadline(deadline, move || { db2.evict_cache(); }) { None => Err("hang".into()), Some(Err(_)) => Err("panic".into()), Some(Ok(())) => Ok(()) })
             }
             Step::Restart => {
                 self.hist.push("R".into());
+                for sib in self.sibs.iter_mut() { sib.hist.push("R".into()); }
                 let opts2 = self.opts.clone();
                 let old = std::mem::replace(&mut self.db, Arc::new(LocustDB::memory_only()));
                 ("restart", match with_deadline(deadline, move || { drop(old); std::thread::sleep(std::time::Duration::from_millis(30)); LocustDB::new(&opts2) }) {
@@ -482,13 +716,24 @@ impl Hist {
             }
         };
         if silent_ok && outcome.is_ok() { return; }
-        let out = match &outcome { Ok(()) => select_all(&self.db, deadline), Err(e) => e.clone() };
+        let out = match &outcome { Ok(()) => select_all(&self.db, "t", deadline), Err(e) => e.clone() };
         let class = format!("{}:{}{}", self.class_prefix, kind, if kind == "flush" { format!(":merge{}", merged.min(4)) } else { String::new() });
         let obs = if self.obs_all.is_empty() { "-".to_string() } else { self.obs_all.join("|") };
         cases.push(&class, &format!("hist {} {}", obs, self.hist.join("|")), &out, &format!("step {} rows {}", stepno, self.rows));
         if outcome.is_err() || out == "hang" || out == "panic" {
             // the flush thread (or a worker) is gone: abandon this database
             self.dead = true;
+            return;
+        }
+        // sibling tables: each must still show exactly its own rows after a maintenance step
+        if kind != "ingest" {
+            for sib in self.sibs.iter() {
+                if sib.rows == 0 { continue; }
+                let out = select_all(&self.db, sib.name, deadline);
+                let obs = if sib.obs_all.is_empty() { "-".to_string() } else { sib.obs_all.join("|") };
+                cases.push(&format!("{}:sib:{}", self.class_prefix, kind), &format!("hist {} {}", obs, sib.hist.join("|")), &out, &format!("step {} table {:?} rows {}", stepno, sib.name, sib.rows));
+                if out == "hang" || out == "panic" { self.dead = true; }
+            }
         }
     }
 
@@ -497,10 +742,11 @@ impl Hist {
     }
 }
 
-fn history_db(cases: &mut Cases, rng: &mut Rng, disk: bool, factor: u64, mem_lz4: bool, profile: usize, nsteps: usize) {
+fn history_db(cases: &mut Cases, rng: &mut Rng, disk: bool, factor: u64, mem_lz4: bool, profile: usize, nsteps: usize, siblings: bool) {
     let (pname, kinds) = PROFILES[profile];
     let cfg = format!("{}:f{}:{}", if disk { "disk" } else { "mem" }, factor, if mem_lz4 { "lz4" } else { "nolz4" });
     let mut h = Hist::open(format!("hist:{}:{}", pname, cfg), disk, factor, mem_lz4);
+    if disk && siblings { h = h.with_siblings(); }
     for stepno in 0..nsteps {
         let choice = if h.rows == 0 { 0 } else { rng.below(if disk { 10 } else { 7 }) };
         let step = match choice {
@@ -620,7 +866,8 @@ fn history_stream(cases: &mut Cases, rng: &mut Rng, thorough: bool) {
                 let disk = (profile + i + round) % 4 != 3;
                 let mem_lz4 = (profile + i + round) % 2 == 0;
                 let nsteps = if thorough { 16 } else { 11 };
-                history_db(cases, rng, disk, *factor, mem_lz4, profile, nsteps);
+                // every second database with a storage directory also carries the sibling tables
+                history_db(cases, rng, disk, *factor, mem_lz4, profile, nsteps, (profile + i) % 2 == 0);
             }
         }
     }
@@ -631,7 +878,7 @@ fn history_stream(cases: &mut Cases, rng: &mut Rng, thorough: bool) {
 fn ladder_db(cases: &mut Cases, rng: &mut Rng, factor: u64, mem_lz4: bool, profile: usize, nflush: usize) {
     let (pname, kinds) = PROFILES[profile];
     let cfg = format!("disk:f{}:{}", factor, if mem_lz4 { "lz4" } else { "nolz4" });
-    let mut h = Hist::open(format!("hist:{}:{}:ladder", pname, cfg), true, factor, mem_lz4);
+    let mut h = Hist::open(format!("hist:{}:{}:ladder", pname, cfg), true, factor, mem_lz4).with_siblings();
     let n = *rng.pick(&[8usize, 9, 17]);
     for b in 0..nflush {
         let mut cols = vec![];
@@ -655,6 +902,44 @@ fn ladder_stream(cases: &mut Cases, rng: &mut Rng, thorough: bool) {
     }
 }
 
+/// `tail` ladders: batches of 8 / 16 / 24 / 64 rows (every partition boundary is a multiple of 8) whose nullable columns END in
+/// NULL runs that cover whole bytes of the null map and START with a value, a flush after every batch, under every combine
+/// factor: whichever partitions the planner merges, `push_present` appends a null map at an aligned length behind a bitmap
+/// that is shorter than length / 8.  `SELECT *` before / after every flush, then evict, restart, flush.
+fn tail_ladder_db(cases: &mut Cases, rng: &mut Rng, factor: u64, mem_lz4: bool, n: usize, nflush: usize) {
+    let (pname, kinds) = TAIL_PROFILE;
+    let cfg = format!("disk:f{}:{}", factor, if mem_lz4 { "lz4" } else { "nolz4" });
+    let mut h = Hist::open(format!("hist:{}:{}:ladder{}", pname, cfg, n), true, factor, mem_lz4).with_siblings();
+    for b in 0..nflush {
+        let mut cols = vec![];
+        for ck in kinds { if let Some(cells) = ck.cells(rng, h.rows, n, h.nbatch) { cols.push((ck.name().to_string(), cells)); } }
+        h.step(cases, Step::Ingest(n, cols, rng.next()), 2 * b);
+        h.step(cases, Step::Flush, 2 * b + 1);
+        if h.dead { break; }
+    }
+    h.step(cases, Step::Evict { silent: false }, 2 * nflush);
+    h.step(cases, Step::Restart, 2 * nflush + 1);
+    h.step(cases, Step::Flush, 2 * nflush + 2);
+    h.close();
+}
+
+fn tail_ladder_stream(cases: &mut Cases, rng: &mut Rng, thorough: bool) {
+    let sizes = [8usize, 16, 24, 64];
+    let factors = [0u64, 1, 2, 3, 4];
+    for (i, &n) in sizes.iter().enumerate() {
+        for (j, &f) in factors.iter().enumerate() {
+            // quick: a covering half of the size x factor grid (every size under >= 2 factors, every factor under >= 1 size, the
+            // all-merging factors 0 / 1 under every size); thorough: the whole grid, with and without mem_lz4
+            let quick_pick = f <= 1 || (i + j) % 4 == 0;
+            if !thorough && !quick_pick { continue; }
+            // factor f merges once f + 1 equal partitions exist (then the merged one with later ones)
+            let nflush = (f as usize + 2).max(4);
+            tail_ladder_db(cases, rng, f, (i + j) % 2 == 1, n, nflush);
+            if thorough { tail_ladder_db(cases, rng, f, (i + j) % 2 == 0, n, nflush + 2); }
+        }
+    }
+}
+
 fn install_obs() {
     vharness::locustdb::verif::set_sync_callback(Some(Box::new(|label: &str| {
         if label.starts_with("compact:input:") { OBS.lock().unwrap().push(label.to_string()); }
@@ -663,7 +948,7 @@ fn install_obs() {
 
 fn main() {
     let args = parse_args();
-    quiet_panics();
+    if std::env::var("C07_LOUD").is_err() { quiet_panics(); }
     let mut rng = Rng::new(args.seed);
     let mut cases = Cases::create(&args.out);
     let only = args.rest.first().cloned().unwrap_or_default();
@@ -673,8 +958,10 @@ fn main() {
     if only.is_empty() || only == "corpus" || only == "hist" { corpus_histories(&mut cases); }
     if only.is_empty() || only == "unit" { unit_stream(&mut cases, &mut rng, args.thorough()); }
     if only.is_empty() || only == "reb" { reb_stream(&mut cases, &mut rng, args.thorough()); }
+    if only.is_empty() || only == "reb" || only == "rebx" { rebx_stream(&mut cases, args.thorough(), args.seed); }
     if only.is_empty() || only == "hist" { history_stream(&mut cases, &mut rng, args.thorough()); }
     if only.is_empty() || only == "hist" || only == "ladder" { ladder_stream(&mut cases, &mut rng, args.thorough()); }
+    if only.is_empty() || only == "hist" || only == "ladder" || only == "tail" { tail_ladder_stream(&mut cases, &mut rng, args.thorough()); }
     vharness::locustdb::verif::set_sync_callback(None);
     cases.finish();
     // leaked databases may still have threads blocked in a dead flush: leave without joining them
